@@ -663,7 +663,11 @@ class SignedFunction(Function):
     if posonly_kws and not sig.kwargs_name:
       raise error_types.WrongKeywordArgs(sig, args, self.ctx, posonly_kws)
     callargs.update(positional)
-    callargs.update(kws)
+    # A keyword named like a positional-only parameter does not bind that
+    # parameter; it goes into **kwargs (see below).
+    callargs.update(
+        {key: value for key, value in kws.items() if key not in posonly_names}
+    )
     for key, kwonly in itertools.chain(
         self.get_nondefault_params(), ((key, True) for key in sig.kwonly_params)
     ):
@@ -691,7 +695,9 @@ class SignedFunction(Function):
       if args.starstarargs:
         callargs[kwargs_name] = args.starstarargs.AssignToNewVariable(node)
       else:
-        omit = sig.param_names + sig.kwonly_params
+        omit = [
+            name for name in sig.param_names if name not in posonly_names
+        ] + list(sig.kwonly_params)
         k = _instances.Dict(self.ctx)
         k.update(node, args.namedargs, omit=omit)
         callargs[kwargs_name] = k.to_variable(node)
